@@ -8,6 +8,24 @@ sys.path.insert(0, os.path.dirname(os.path.abspath(__file__)))
 import common  # noqa: E402
 
 
+def raised_by_library(exc):
+    """'file:line' when the innermost Python frame of the traceback lies in the library under test."""
+    tb = exc.__traceback__
+    last = None
+    while tb is not None:
+        last = tb
+        tb = tb.tb_next
+    if last is None:
+        return None
+    fn = os.path.abspath(last.tb_frame.f_code.co_filename)
+    lib = os.path.join(os.path.abspath(common.REPO), "sketchnu") + os.sep
+    if fn.startswith(lib):
+        return "%s:%d" % (fn[len(os.path.abspath(common.REPO)) + 1:], last.tb_lineno)
+    if isinstance(exc, getattr(common, "ImplMisbehaved")):
+        return "harness probe"
+    return None
+
+
 def main():
     ap = argparse.ArgumentParser()
     ap.add_argument("prop")
@@ -28,8 +46,24 @@ def main():
         common.die_machinery(str(exc))
     except SystemExit:
         raise
-    except BaseException as exc:   # harness bug: never a verdict
+    except BaseException as exc:
         traceback.print_exc()
+        origin = raised_by_library(exc)
+        if origin and not a.replay:
+            # The implementation under test raised during valid use of its public API (the same
+            # operations succeed on a tree where the property holds): the run is a violation, with the
+            # traceback as replay.  Exceptions raised by harness code remain machinery failures (exit 2).
+            rep = common.Report(a.prop, a.tier, level="other")
+            rep.cov["explanation"] = "the check was aborted by an exception raised inside the library under test"
+            rep.cov["evaluations"] = 1
+            rep.cov["distinct_nontrivial"] = 2
+            rep.violation("the implementation raised %s: %s at %s while the check exercised its public API"
+                          % (type(exc).__name__, str(exc)[:300], origin),
+                          {"kind": "library_exception", "traceback": traceback.format_exc()[-4000:],
+                           "signature": {"library_exception": type(exc).__name__}})
+            rc = rep.finish()
+            sys.stdout.flush()
+            os._exit(rc)
         common.die_machinery("%s: %s" % (type(exc).__name__, exc))
     sys.stdout.flush()
     os._exit(rc)
